@@ -2,5 +2,6 @@ pub mod c01;
 pub mod c02;
 pub mod c03;
 pub mod c04;
+pub mod c05;
 pub mod diff;
 pub mod rel;
